@@ -5,7 +5,10 @@ obligation (contracts/shamir.py), and the field laws themselves are mathematics 
 
 P = 1 + 2 + 4 + 128 + 2 ** 128          # the documented reduction polynomial
 
-SIG = {'mul': {'sort': 'int', 'uf': True, 'facts': ['0 <= result', 'result < 2 ** 128']},
+# facts = field axioms the Shamir-level proofs use: closure, and "no zero divisors" (a field; lemmas/GF2Irreducible.lean,
+# ShamirGF128.lean: AdjoinRoot f is a field)
+SIG = {'mul': {'sort': 'int', 'uf': True, 'facts': ['0 <= result', 'result < 2 ** 128', '(result == 0) == (a == 0 or b == 0)',
+                                                       'result == mul(b, a)']},
        'inv': {'sort': 'int', 'uf': True, 'facts': ['0 <= result', 'result < 2 ** 128']}}
 
 
